@@ -32,3 +32,4 @@ mk F18 "$(sha 'rounding gives the same result')"
 mk F4 "$(sha 'repeated squaring of a host integer')" "$(sha 'running out of memory in an operator')" "$(sha 'an integer power with a huge exponent')" "$(sha 'booleans are not numbers')" "$(sha 'arithmetic failures in operators')"
 mk F19 "$(sha 'non-finite or circular invalid arguments')"
 mk F20 "$(sha 'a failing function call with debug on and logFn set to None')"
+mk F21 "$(sha 'a syntax error in a script included from inside a function')"
